@@ -220,10 +220,16 @@ CLAIMED = {
         'C12_signals_complete, C12_signal_param_names); class/interface structures and their types point at each other '
         '(C12_type_struct_link, C12_type_struct_names); exactly the function-pointer members whose first parameter is the instance '
         'become virtual methods (C12_virtual_methods); get-type functions and nothing else leave the function list '
-        '(C12_get_type_functions_removed). Tie: generated worlds (classes with instance/class structures, interfaces, boxed types, '
+        '(C12_get_type_functions_removed); an error-quark function gives its domain to the enumeration whose get-type symbol prefix, '
+        'underscored name or name it carries, the registered prefix deciding first, a later quark function of the same enumeration '
+        'overwriting an earlier one, an enumeration without quark function keeping none, and exactly the quark functions without '
+        'enumeration being reported - for every list of enumerations and quark functions (C12_error_domain_given, '
+        'C12_error_domain_kept, C12_unmatched_quarks_reported, C12_registered_prefix_first; Model/C12Q.v). Tie: generated worlds (classes with instance/class structures, interfaces, boxed types, '
         'hidden ancestors, properties over all flag bytes, signals) and their dump XML go through the real GDumpParser, '
         'MainTransformer, IntrospectablePass and GIRWriter; every class, interface, structure and the function list are compared with '
-        'Model.C12 inside Coq, and flag bits and parent choice are also judged directly.',
+        'Model.C12 inside Coq, and flag bits, parent choice, property and signal types are also judged directly; worlds of registered and '
+        'unregistered enumerations, flags and error-quark functions are compared with Model.C12Q inside Coq (domains, number of '
+        'unmatched quarks) and judged directly.',
    note='Trusted: Coq kernel+VM; gen_c02.py (type table); stub lexer; the dump is given as XML (girepository/gdump.c and the '
         'introspection binary are not exercised: stated partial). Not generated: enumerations/flags of the dump, error quarks, '
         'pointer and fundamental types, unknown interface names (two unresolved interface types make the writer\'s sort raise).',
